@@ -44,7 +44,8 @@ def encode(g):
         out += [hexs(head), str(len(body))]
         for k, n in body:
             out += [str(k), hexs(n)]
-        out += [str(act), str(aid)]
+        # shape 8 (the action keeps the slice X itself) has the semantics of shape 1 in the model, where attributes are values
+        out += [str({8: 1}.get(act, act)), str(aid)]
     return " ".join(out)
 
 
@@ -159,6 +160,9 @@ def action_text(act, aid, n):
         return " << vh.Mk($Context, %d, %s) >>" % (aid, L)
     if act == 7:
         return " << vh.Sel(C, %d, $10) >>" % aid
+    if act == 8:
+        # the attribute slice itself is retained (no copy): it must still hold the body's attributes when the result is read
+        return " << vh.MkX(C, %d, X) >>" % aid
     if act == 6:
         # the action text contains printf verbs: it must reach the generated file verbatim
         return " << vh.Pct(C, %d, \"%%s|%%d|%%%%|%%v|%%!\", %s) >>" % (aid, L)
@@ -311,7 +315,7 @@ def rand_syn(rng, terms, nnt=None, max_alts=3, max_len=3, p_empty=0.2, p_error=0
             act = 0
             if acts and rng.random() < 0.6:
                 nsyms = 0 if body[0][1] == "empty" else len(body)
-                choices = [1, 1, 5, 6]
+                choices = [1, 1, 5, 6, 8]
                 if nsyms >= 1:
                     choices += [2, 3]
                     # $T0 needs a terminal in first position (but not the error symbol: its attribute is *errors.Error)
